@@ -918,6 +918,17 @@ pub fn scale_family(thorough: bool) -> Vec<(String, &'static str, Vec<String>)> 
             out.push((format!("{}a{}", "(?:".repeat(n), ")*".repeat(n)), "", vec!["aaa".into(), "".into()]));
             out.push((format!("{}a{}b", "(?=".repeat(n), ")".repeat(n)), "", vec!["ab".into(), "b".into()]));
         }
+        // a quantified body nested n deep (below the documented nesting limit)
+        if n <= 129 {
+            let mut body = String::from("y");
+            for _ in 0..n {
+                body = format!("(?:q|{})", body);
+            }
+            let body = format!("(?:x|{})", body);
+            out.push((format!("^{}{{2}}$", body), "", vec!["".into(), "xy".into(), "xq".into(), "x".into(), "xyq".into()]));
+            out.push((format!("{}{{2,}}z", body), "", vec!["zxxz".into(), "xz".into(), "qyxz".into()]));
+            out.push((format!("{}+?z", body), "", vec!["zxyz".into(), "z".into()]));
+        }
         // long haystacks: loops that iterate n times, matches that start at offset n
         out.push(("(?:(a)|b)*c".into(), "", vec![format!("{}c", "ab".repeat(n)), format!("{}d", "ab".repeat(n))]));
         out.push(("(?:a|ab)*c".into(), "", vec![format!("{}c", "ab".repeat(n)), format!("{}c", "a".repeat(n))]));
@@ -926,6 +937,23 @@ pub fn scale_family(thorough: bool) -> Vec<(String, &'static str, Vec<String>)> 
         out.push(("(?<=\\d{3})x|^y".into(), "m", vec![format!("{}123x\ny", "-".repeat(n)), format!("{}12x", "1".repeat(n))]));
         out.push(("\\bfoo\\b".into(), "i", vec![format!("{} FOO {}foo", "é ".repeat(n), "x".repeat(n))]));
         out.push(("(.)\\1".into(), "is", vec![format!("{}aA", "ab".repeat(n)), format!("{}{}k", "é".repeat(n), '\u{212A}')]));
+    }
+    // literals whose multi-byte characters straddle the 16- and 32-byte chunk boundaries, forwards, in
+    // lookbehinds (positive, negative, capturing) and case-insensitively
+    for base in [0usize, 16] {
+        for k in 12..=17usize {
+            for ch in ["é", "€", "😀"] {
+                let l = format!("{}{}ddd", "a".repeat(base + k), ch);
+                let miss = format!("{}{}ddd", "a".repeat(base + k), "e");
+                let hays = vec![format!("{}z", l), format!("{}z {}z", miss, l), format!("x{}z", l), format!("{}{}z", l, l)];
+                out.push((format!("(?<={})z", l), "", hays.clone()));
+                out.push((format!("(?<!{})z", l), "", hays.clone()));
+                out.push((format!("(?<=({}))z", l), "u", hays.clone()));
+                out.push((format!("{}z", l), "", hays.clone()));
+                out.push((format!("{}z", l), "i", hays.iter().map(|h| h.to_uppercase()).collect()));
+                out.push((format!("z(?={})", l), "", vec![format!("z{}", l), format!("z{}", miss)]));
+            }
+        }
     }
     out
 }
